@@ -897,6 +897,9 @@ func (ex *Exec) convert(st *State, x *Value, to types.Type, in ssa.Instruction) 
 			return ex.intV(ex.bvResize(x.C[0], from, to), to)
 		}
 		return ex.intV(ex.wrapAlways(x.C[0], to), to)
+	case isIntType(from) && isFloatType(to) && x.X != nil:
+		// exact: the integer came from truncating this float (|x| < 2^53 assumed by the range obligation)
+		return &Value{T: to, C: []*Term{x.X}}
 	case isIntType(from) && isFloatType(to):
 		if ex.L.bv {
 			ex.note("int->float in bv mode abstracted")
@@ -904,8 +907,16 @@ func (ex *Exec) convert(st *State, x *Value, to types.Type, in ssa.Instruction) 
 		return &Value{T: to, C: []*Term{tb.Raw("(_ to_fp 11 53) RNE", SFP, tb.Raw("to_real", "Real", x.C[0]))}}
 	case isFloatType(from) && isIntType(to):
 		// Go: truncation toward zero; out-of-range is implementation-defined
-		r := tb.Raw("fp.to_real", "Real", tb.Raw("fp.roundToIntegral RTZ", SFP, x.C[0]))
-		return ex.intV(tb.Raw("to_int", SInt, r), to)
+		rz := tb.Raw("fp.roundToIntegral RTZ", SFP, x.C[0])
+		r := tb.Raw("fp.to_real", "Real", rz)
+		iv := ex.intV(tb.Raw("to_int", SInt, r), to)
+		iv.X = rz
+		// Go leaves out-of-range conversions implementation-defined: require the range
+		if in != nil {
+			lim := ex.fpLit(9.2e18)
+			ex.oblige(st, "fpconv", ex.siteWhat(in), tb.And(tb.Not(tb.Raw("fp.isNaN", SBool, x.C[0])), tb.Raw("fp.lt", SBool, tb.Raw("fp.abs", SFP, x.C[0]), lim)), in, "float to int conversion out of range")
+		}
+		return iv
 	case isFloatType(from) && isFloatType(to):
 		return &Value{T: to, C: x.C}
 	case isStringType(from) && isStringType(to):
@@ -942,12 +953,13 @@ func (ex *Exec) makeInterface(x *Value, it types.Type) *Value {
 	case *types.Pointer, *types.Map, *types.Chan, *types.Signature:
 		val = x.C[0]
 	default:
-		if len(x.C) == 1 && x.C[0].Sort == refSort {
+		if false {
 			val = x.C[0]
 		} else {
 			// identity of a boxed value: a function of its components is not needed
 			// for the properties checked; a fresh symbol over-approximates.
 			val = ex.tb.Fresh("box", refSort)
+			ex.boxes[val.id] = x
 		}
 	}
 	return &Value{T: it, C: []*Term{tag, val}, I: x}
